@@ -25,6 +25,9 @@ def opOf (s : String) : Option Op :=
   | "gettable" => some .getTable | "readpart" => some .readPart | "getfs" => some .getFs
   | "mkdir" => some .mkdir | "mkdir-nested" => some .mkdirNested | "rename" => some .rename
   | "remove" => some .remove | "remove-dirfile" => some .removeDirfile | "setlabel" => some .setLabel
+  -- the same calls with the value already there, or retried at once: the model's answer does not depend on arguments
+  | "setlabel-current" => some .setLabel | "setlabel-retry" => some .setLabel | "rename-same" => some .rename
+  | "chmod-retry" => some .chmod
   | "chmod" => some .chmod | "chown" => some .chown | "chtimes" => some .chtimes | "symlink" => some .symlink
   | "write" => some .write | "write-append" => some .writeAppend
   | "open-rdwr" => some .openRdwr | "open-wronly" => some .openWronly | "open-create" => some .openCreate
